@@ -48,3 +48,17 @@ sexp witness_ok_box_double_bounded (sexp ctx, double acc, int sign) {
 sexp witness_ok_box_integer (sexp ctx, sexp_uint_t acc, int sign) {
   return sexp_make_fixnum(sign * (sexp_sint_t)acc);
 }
+
+sexp witness_bad_hoisted_constant (sexp ctx, double d) {
+  const double fix_max = SEXP_MAX_FIXNUM;
+  if (d > fix_max)
+    return sexp_make_flonum(ctx, d);
+  return SEXP_FALSE;
+}
+
+sexp witness_ok_hoisted_constant (sexp ctx, double d) {
+  const double fix_max = SEXP_MAX_FIXNUM, fix_min = SEXP_MIN_FIXNUM;
+  if (!(d < fix_max) || (d < fix_min))
+    return sexp_make_flonum(ctx, d);
+  return SEXP_FALSE;
+}
